@@ -810,7 +810,7 @@ func (x *c10) closePairing() {
 				for _, in := range b.Instrs {
 					if call, ok := in.(ssa.CallInstruction); ok {
 						if bi, ok := call.Common().Value.(*ssa.Builtin); ok && bi.Name() == "close" {
-							if fi.Name != "chans.(*PubSub).Unsub" && fi.Name != "chans.(*PubSub).UnsubAll" {
+							if fi.Name != "chans.(*PubSub).Unsub" && fi.Name != "chans.(*PubSub).UnsubAll" && touchesSubs(fn, x.fSubs) {
 								others = append(others, fi.Name)
 							}
 						}
@@ -1473,4 +1473,32 @@ func (x *c10) unsubInlineSearch(fi *FuncInfo, p *Path) (row string, idx *Term, i
 		return "notfound", nil, it
 	}
 	return "", nil, it
+}
+
+// touchesSubs: the function is a method of PubSub or reads/writes the subscriber list (a close elsewhere in the
+// package, on channels that are not a PubSub's, is none of this property's business).
+func touchesSubs(fn *ssa.Function, fSubs *types.Var) bool {
+	if fn.Signature.Recv() != nil && strings.Contains(fn.Signature.Recv().Type().String(), "PubSub") {
+		return true
+	}
+	for _, p := range fn.Params {
+		if strings.Contains(p.Type().String(), "PubSub") {
+			return true
+		}
+	}
+	for _, b := range fn.Blocks {
+		for _, in := range b.Instrs {
+			if fa, ok := in.(*ssa.FieldAddr); ok {
+				if f := fieldVar(fa.X.Type(), fa.Field); f != nil && sameField(f, fSubs) {
+					return true
+				}
+			}
+			if fl, ok := in.(*ssa.Field); ok {
+				if st, ok2 := fl.X.Type().Underlying().(*types.Struct); ok2 && fl.Field < st.NumFields() && sameField(st.Field(fl.Field), fSubs) {
+					return true
+				}
+			}
+		}
+	}
+	return false
 }
